@@ -174,6 +174,12 @@ func genMetaType(tp *kernel.Tape, proto, depth int) wType {
 		}
 		return t
 	case 6:
+		if extraScalars && tp.Chance(1, 3) {
+			// byzantine scenario only: a custom type whose class is the bare name of a
+			// parameterised marshal class (no server describes a column like this)
+			return wType{ID: cqlspec.TCustom, Custom: "org.apache.cassandra.db.marshal." +
+				[]string{"TupleType", "ListType", "SetType", "MapType", "UserType", "ReversedType", "FrozenType"}[tp.Next(7)]}
+		}
 		return wType{ID: cqlspec.TCustom, Custom: "com.example.Custom" + fmt.Sprint(tp.Next(3))}
 	}
 	return genScalar(tp, proto)
